@@ -274,6 +274,58 @@ reg(Spec(
     technique="runtime monitor over generated programs: exact-integral "
               "oracle plus the bilinear/linear consistency relation"))
 
+# ----------------------------------------------------------------------- C08
+DIFFS = ["twin", "moved-first", "moved-last", "moved-inner", "extra-left",
+         "extra-right", "extra-inside", "prefix", "suffix",
+         "equal-where-supports-meet"]
+ENTRIES = ["add", "sub", "mul", "add-assign", "sub-assign",
+           "linear-combination", "bilinear-form", "bilinear-form-operators",
+           "factor-apply", "factor-linear-form", "factor-bilinear-form",
+           "support-union", "support-intersection"]
+
+
+def c08_runs(tier, seed):
+    n = q(tier, 80000, 6000000)
+    runs = [RunSpec("grids", "Q", "plain", n), RunSpec("grids", "d", "plain", n),
+            RunSpec("pool", "Q", "nochk", q(tier, 160, 10000))]
+    if tier == "thorough":
+        runs += [RunSpec("grids", "f", "nochk", n // 4),
+                 RunSpec("grids", "ld", "nochk", n // 4)]
+    return runs
+
+
+reg(Spec(
+    "C08", "operations across different grids are refused, never computed",
+    c08_runs,
+    rule=("case k -> grid difference k mod 10 (equal twin as the control; "
+          "first / last / inner point moved; extra point left / right / "
+          "inside; prefix; suffix; grids that agree on the whole hull of both "
+          "supports and differ only outside it), entry point (k div 10) mod 15 "
+          "(+ - * += -= linearCombination with the odd one out at a random "
+          "position, ScalarProduct, BilinearForm{X,Dx}, integrate<3> "
+          "(floating types), SplineOperator{v}*s, LinearForm{Dx*V}(s), "
+          "BilinearForm{X+V}(a,a2), Support union / intersection), orders "
+          "0..2 x 0..2, 12 relative placements of the two windows including "
+          "interval-free arguments; every 16th case: generator with a supplied "
+          "grid. Oracle: logically different grids => BSplineException with "
+          "DIFFERING_GRIDS (generator: any code), no result, both arguments "
+          "bit-identical and on the same grid objects afterwards; for spline "
+          "factors only when the operator is applied to at least one interval; "
+          "equal twin => no exception and the result == the result obtained "
+          "with a shared instance. The pool machine adds refused calls in the "
+          "middle of histories. Non-trivial: a call that must be refused; "
+          "distinct by full input."),
+    required=["diff:" + d for d in DIFFS] + ["entry:" + e for e in ENTRIES] +
+             ["refused", "twin-agrees", "generator-refused",
+              "c08:refused-in-history"],
+    assumptions=["for a bilinear form over operands without a common interval "
+                 "the factor is never consulted; such calls are counted as "
+                 "not judged", "checkOverlap and assignment across grids are "
+                 "not part of the statement"],
+    evaluations=["calls", "generator-calls"],
+    technique="runtime monitor: outcome + before/after snapshots of every "
+              "entry point over systematically constructed grid pairs"))
+
 # ------------------------------------------------- pool machine: C03/10/14/15
 PLACEMENTS = ["EQ", "A_IN_B", "B_IN_A", "PARTIAL_L", "PARTIAL_R", "TOUCH",
               "GAP", "A_EMPTY", "B_EMPTY", "BOTH_EMPTY", "A_POINT", "B_POINT"]
@@ -370,7 +422,7 @@ reg(Spec(
               "step:self-move", "step:cross-order-assign",
               "step:construct-empty", "step:construct-point", "step:destroy",
               "step:fail-add-assign", "step:fail-ctor-count",
-              "step:fail-lincomb", "step:fail-factor"],
+              "step:fail-lincomb", "step:fail-factor", "step:fail-grid-ctor"],
     assumptions=["histories of 150 steps over 15+5 objects; orders 0..4 "
                  "(0..6 thorough)", "self-move-assignment is exercised except "
                  "under the checked-STL flavour, where libstdc++ itself "
@@ -407,7 +459,9 @@ reg(Spec(
 
 
 def c15_runs(tier, seed):
-    return pool_runs(tier, seed)
+    n = q(tier, 80000, 3000000)
+    return pool_runs(tier, seed) + [RunSpec("grids", "Q", "plain", n),
+                                    RunSpec("grids", "d", "plain", n)]
 
 
 reg(Spec(
@@ -418,9 +472,13 @@ reg(Spec(
          "same window (or both empty) and coefficient-wise equal on equal "
          "grids, never equal across logically different grids; == reflexive, "
          "symmetric, true for copies, != its negation; for supports and grids "
-         "as well. " + POOL_NT,
+         "as well. The grid-pair driver (see C08) adds splines with identical "
+         "windows and coefficients on twin / differing grids (10 kinds of "
+         "difference, including grids that differ only outside the window): "
+         "equal iff the grids are logically equal. " + POOL_NT,
     required=["pred:isZero:true", "pred:isZero:false", "pred:eq:true",
-              "pred:eq:false", "pred:support-eq"] +
+              "pred:eq:false", "pred:support-eq",
+              "c15:equality-across-grids"] +
              ["pred:overlap:%s:%s" % (p, t) for p, t in (
                  ("EQ", "true"), ("A_IN_B", "true"), ("B_IN_A", "true"),
                  ("PARTIAL_L", "true"), ("PARTIAL_R", "true"),
